@@ -24,11 +24,148 @@ def sig_for(meta, clause):
     return f"C04:{generic}:{cause}"
 
 
+COND_CLASSES = ("method", "header-name", "header-value", "query-name", "query-value")
+
+
+def _print_stream(ctx):
+    """Text step of the fragment (Model/Print, Model/PrintGuards): scenarios of C02's fragment profile with a benign / hostile
+    marker value in every guarded string field in turn, through the REAL pipeline; the Lean driver (mode print) evaluates the
+    field guards on the scenario and compares lex(real http.conf) with lex(printDirs(render(genR s))) token for token."""
+    thorough = ctx.tier == "thorough"
+    n, stride = (48, 1) if thorough else (10, 3)
+    args = ["-mode", "print", "-seed", ctx.seed, "-n", n, "-stride", stride]
+    lines = ctx.harness(args) or []
+    out = {"runs": len(lines), "scenarios": n}
+    if not lines:
+        ctx.broken("print stream of harness/c04 produced nothing")
+        return out
+    res = ctx.driver("print", lines)
+    hist = collections.Counter()
+    outside = collections.Counter()
+    per_class = collections.defaultdict(collections.Counter)
+    benign = {}          # (scen, site) -> result of the benign run
+    samples, nbroken = [], 0
+
+    def rep(l, o):
+        return {"input": {k: l.get(k) for k in ("id", "scen", "site", "class", "value")}, "lean": {k: v for k, v in o.items() if k not in ("skel", "modelSkel")},
+                "how": f"harness/cmd/c04 -mode print -seed {ctx.seed} -n {l.get('scen', 0) + 1} -scen {l.get('scen', 0)} -site '{l.get('site', '')}' "
+                       "regenerates the lines of this site (all payloads); ngfdriver_C04 print reads them"}
+
+    def broken(msg, l, o):
+        nonlocal nbroken
+        nbroken += 1
+        if nbroken <= 4:
+            ctx.broken(msg, replay=rep(l, o))
+
+    pairs = []
+    for raw, r in zip(lines, res):
+        try:
+            l, o = json.loads(raw), json.loads(r)
+        except Exception:
+            ctx.broken(f"print mode: undecodable line pair: {r[:200]}")
+            continue
+        pairs.append((l, o))
+        if l.get("benign") and "error" not in o and "panic" not in o:
+            benign[(l["scen"], l["site"])] = o
+    for l, o in pairs:
+        cls = l["class"]
+        if "panic" in o:
+            hist["panic"] += 1      # crashes are C05's business
+            continue
+        if "error" in o:
+            broken(f"print mode could not decode a harness line: {o}", l, o)
+            continue
+        b = benign.get((l["scen"], l["site"]), {})
+        reaches = bool(b.get("markHttp") or b.get("markMatches")) or cls == "redirect-scheme"
+        guards = o["fieldsOK"] and o["condsOK"]
+        accepted = o["markHttp"] or o["markMatches"]
+        sig = f"C04:fragment:{cls}"
+        what = f"{l['site']} = {l['value']!r} (fragment scenario {l['id']})"
+        if not o["realLexes"]:
+            ctx.finding(sig + ":structure", f"{what}: the generated http.conf is not tokenisable / does not nest: {o['why']}", rep(l, o))
+            hist["fail-real-conf-unreadable"] += 1
+            continue
+        if not o["realRoundtrip"]:
+            broken("Print.dirsToks does not invert NginxParse.parseToks on the tokens of a real http.conf", l, o)
+        if cls in COND_CLASSES and o["markHttp"]:
+            ctx.finding(sig + ":reaches-http-conf", f"{what}: a match condition string, which is rendered into matches.json only, "
+                        "appears in http.conf", rep(l, o))
+            hist["fail-condition-in-http-conf"] += 1
+            continue
+        if not guards:
+            if accepted:
+                # rejected by the guard the model attaches to the field, yet rendered by the real pipeline
+                altered = b.get("skel") is not None and o["skel"] != b.get("skel")
+                hist["fail-unguarded"] += 1
+                if altered:
+                    ctx.finding(sig + ":structure", f"{what}: the value violates the guard of its field, is rendered all the same and "
+                                f"changes the token skeleton of http.conf", rep(l, o))
+                else:
+                    broken(f"dataflow gap: {what} is rejected by PrintGuards.fieldsOK/condsOK but reaches the generated files", l, o)
+            else:
+                k = "rejected" if reaches else "rejected-site-not-rendered"
+                hist[k] += 1
+                per_class[cls][k] += 1
+            continue
+        # the guards hold
+        if not o["inFragment"]:
+            hist["guards-hold-outside-fragment"] += 1
+            outside[o["why"][:60]] += 1
+            continue
+        if not o["rawSame"]:
+            broken(f"PrintTie.rawFragment and PipelineTie.toFragment render differently: {what}", l, o)
+        if not o["toksEqual"]:
+            hist["fail-text-differs"] += 1
+            shape_kept = b.get("modelSkel") is not None and b.get("modelSkel") == o["modelSkel"]
+            if shape_kept and o["skel"] != b.get("skel"):
+                ctx.finding(sig + ":structure", f"{what}: the value satisfies its guard and keeps the skeleton of the model text, but "
+                            f"changes the token skeleton of the real http.conf: {o['diff']}", rep(l, o))
+            else:
+                broken(f"lex(real http.conf) ≠ lex(printDirs(render(genR s))) although the field guards hold: {what}: {o['diff']}", l, o)
+            continue
+        if not o["skelIntended"]:
+            hist["fail-skeleton-not-intended"] += 1
+            ctx.finding(sig + ":structure", f"{what}: the text NGF writes (= the model text) is tokenised with a skeleton other than "
+                        f"the one of the intended directives although the field guards hold", rep(l, o))
+            continue
+        if not o.get("dirsOKw"):
+            broken(f"fields_weak_dirs is false on a generated input (fieldsOK but a word of the tree violates the weak predicate): {what}",
+                   l, o)
+        if o["noBackslash"] and not o["dirsOK"]:
+            broken(f"fields_safe_dirs is false on a generated input (fieldsOK ∧ noBackslash but a word of the tree is unsafe): {what}",
+                   l, o)
+        if o["noBackslash"] and not o["roundtrip"]:
+            hist["fail-not-read-back"] += 1
+            ctx.finding(sig + ":structure", f"{what}: the text NGF writes (= the model text) is not read back as the intended "
+                        f"directives although the field guards hold", rep(l, o))
+            continue
+        if l["benign"]:
+            k = "benign-equal"
+        elif accepted:
+            k = "hostile-accepted-equal" + ("" if o["noBackslash"] else "-backslash")
+            if len(samples) < 6 and cls not in [x["class"] for x in samples]:
+                samples.append({"class": cls, "site": l["site"], "value": l["value"], "tokens": o["tokens"]})
+        else:
+            k = "hostile-not-rendered-equal"
+        hist[k] += 1
+        per_class[cls][k] += 1
+    acc = hist["hostile-accepted-equal"] + hist["hostile-accepted-equal-backslash"]
+    if acc < (200 if thorough else 40) or hist["rejected"] < (200 if thorough else 40):
+        ctx.broken(f"print tie nearly vacuous: {acc} accepted hostile values compared, {hist['rejected']} rejected with a rendered "
+                   f"benign value")
+    out.update({"verdicts": dict(hist), "outside_fragment_reasons": dict(outside),
+                "per_class": {k: dict(v) for k, v in sorted(per_class.items())}, "samples": samples,
+                "hostile_accepted_compared": acc, "hostile_rejected_benign_rendered": hist["rejected"]})
+    return out
+
+
 def run(ctx):
     ctx.prepare()
     ctx.obligations("NGF.Props.C04")
+    ctx.obligations("NGF.Props.C04Print")
     if ctx.tier == "thorough":
         ctx.leanchecker("NGF.Props.C04")
+        ctx.leanchecker("NGF.Props.C04Print")
     if not getattr(ctx, "harness_ok", False):
         ctx.broken("harness does not build against the current tree", detail="\n".join(ctx.build_errors))
     for e in getattr(ctx, "translator_errors", []):
@@ -165,14 +302,17 @@ def run(ctx):
         else:
             ctx.broken(f"judge could not decode case {cid}: {v}")
 
+    print_tie = _print_stream(ctx)
+
     leaves_total = stats.get("leaves", 0)
     reaching = stats.get("leaves-reaching-config", 0)
     if leaves_total < 1000 or reaching < 100:
         ctx.broken(f"degenerate enumeration: {leaves_total} leaves, {reaching} reaching the configuration")
     distinct_nontrivial = sum(1 for lf, c in outcome_by_leaf.items() for k in c if k != "not-rendered")
     ctx.finish({
-        "evaluations": len(metas) + len(vin),
-        "distinct_nontrivial": verdicts["inside-argument"] + verdicts["rejected-with-status"] + nfind,
+        "evaluations": len(metas) + len(vin) + print_tie.get("runs", 0),
+        "distinct_nontrivial": verdicts["inside-argument"] + verdicts["rejected-with-status"] + nfind +
+                               print_tie.get("hostile_accepted_compared", 0) + print_tie.get("hostile_rejected_benign_rendered", 0),
         "rule": "one evaluation = one run of the real pipeline (graph, dataplane, generator, status setters) on a base scenario "
                 "with one string leaf replaced by a hostile value, judged by the Lean lexer against the run with a benign value of "
                 "the same leaf; non-trivial = the benign value of that leaf reaches the generated files and the hostile value was "
@@ -183,6 +323,7 @@ def run(ctx):
         "validator_correspondence": {"evaluations": len(vin), "diffs": vdiffs, "accepted": vacc.get("1", 0),
                                      "rejected": vacc.get("0", 0), "composed_strings": vacc.get("str", 0),
                                      "validators": len(vnames)},
+        "print_tie": print_tie,
         "pipeline_runs": stats.get("runs", 0),
         "probes": len(metas),
         "leaves_enumerated": leaves_total,
